@@ -37,6 +37,7 @@ def qm_has_backends():
 def run_shard(ctx):
     bks = backends(ctx)
     qmgen.drive_sequences(ctx, OWN, 4 if ctx.thorough else 3, nontrivial)
+    qmgen.drive_schedule_dfs(ctx, OWN, 9 if ctx.thorough else 6, nontrivial)
     qmgen.drive_enumeration(ctx, OWN, bks if ctx.thorough else bks[:2] + bks[2:][:2], 4 if ctx.thorough else 3, 3)
     strat = qmgen.history(qmgen.configs(bks, pools=True, announce=True), WEIGHTS)
     qmgen.drive_histories(ctx, OWN, strat, ctx.n(1500, 25000), nontrivial)
